@@ -145,6 +145,9 @@ def run(facts, cg):
     region = {x for x in cg.reachable(roots) if x.startswith('bitar::') and not facts.bodies[x].generated}
     # the chunker modules themselves are always in scope (a helper that is not called yet cannot hide there)
     region |= {b.id for b in facts.bodies.values() if b.id.startswith('bitar::chunker::') and not b.generated}
+    # (rapid type analysis makes every From / Stream impl of the crate "reachable" from a `u32::from`: what is not in the chunker or
+    # hash modules has no business with the stream buffer and is other rules' subject)
+    region = {x for x in region if x.startswith(('bitar::chunker::', 'bitar::rolling_hash::'))}
 
     # ------------------------------------------------------------------ R-UNTRUSTED(narrowed-arith)
     # The chunkers and rolling hashes run with parameters an archive declares; validation bounds them from below only (and by
@@ -189,9 +192,17 @@ def run(facts, cg):
             continue
         for bi in b.live:
             sw = b.blocks[bi]['term']
-            if sw['k'] != 'switch' or sw['op']['k'] not in ('copy', 'move') or 0 not in sw['vals'] or place_ty(b, sw['op']['pl']).get('k') != 'uint':
+            if sw['k'] != 'switch' or sw['op']['k'] not in ('copy', 'move'):
                 continue
             term = simplify(T.resolve_env(simplify(T.of_operand(b, sw['op']))))
+            if place_ty(b, sw['op']['pl']).get('k') == 'uint' and 0 in sw['vals']:
+                pass
+            elif isinstance(term, tuple) and term[0] == 'binop' and term[1] in ('Eq', 'Ne', 'Lt', 'Le', 'Gt', 'Ge') and \
+                    any(isinstance(x, tuple) and x[0] == 'const' and x[1] in (0, 1) for x in (term[2], term[3])):
+                # the same test spelled as a comparison with zero (`if bytes_read == 0`)
+                term = term[3] if isinstance(term[2], tuple) and term[2][0] == 'const' else term[2]
+            else:
+                continue
             reads = [n_ for n_ in walk(term) if n_[0] == 'call' and n_[1].split('::')[-1] in READS and ('AsyncRead' in n_[1] or 'async_read' in n_[1] or 'io::Read' in n_[1])]
             if not reads:
                 continue
